@@ -30,7 +30,7 @@ except Exception:
     pass
 
 # import-time snapshot of the interface cache (Properties, org.freedesktop.DBus, ...)
-KNOWN_AT_IMPORT = dict(t_iface.DBusInterface.knownInterfaces)
+KNOWN_AT_IMPORT = dict(getattr(t_iface.DBusInterface, 'knownInterfaces', {}))
 
 
 class _OsShim(types.ModuleType):
@@ -77,30 +77,42 @@ class Seams:
 
     # -- install / restore --------------------------------------------------------------
     def install(self, sim, reactor):
+        """Every rebinding is guarded: an internal name that a refactoring removed is simply not
+        patched (the seam it served is then reported by the determinism self-test, not by a
+        crash of every check)."""
         assert not self.installed
         self.sim = sim
         self.errors = []
+        cookie = getattr(t_auth, 'BusCookieAuthenticator', None)
         self.saved = {
-            'reactor': t_client.reactor,
-            'serial': t_msg.DBusMessage._nextSerial,
-            'known': t_iface.DBusInterface.knownInterfaces,
-            'bus_os': t_bus.os,
-            'auth_os': t_auth.os,
-            'auth_time': t_auth.time,
-            'is_linux': t_proto._is_linux,
-            'ctx': t_auth.BusCookieAuthenticator.cookieContext,
+            'reactor': getattr(t_client, 'reactor', None),
+            'serial': getattr(t_msg.DBusMessage, '_nextSerial', None),
+            'known': getattr(t_iface.DBusInterface, 'knownInterfaces', None),
+            'bus_os': getattr(t_bus, 'os', None),
+            'auth_os': getattr(t_auth, 'os', None),
+            'auth_time': getattr(t_auth, 'time', None),
+            'is_linux': getattr(t_proto, '_is_linux', None),
+            'ctx': getattr(cookie, 'cookieContext', None),
             'gc': gc.isenabled(),
+            'gc_defaults': None,
         }
         t_client.reactor = reactor
         t_bus.os = _OsShim(self)
         t_auth.os = _OsShim(self)
         t_auth.time = _TimeShim(self)
-        t_auth.BusCookieAuthenticator.cookieContext = 'org_twisteddbus_ctxSIM'
-        self.saved['gc_defaults'] = (t_auth.BusCookieAuthenticator._get_cookies.__defaults__,
-                                     t_auth.BusCookieAuthenticator._create_cookie.__defaults__)
-        t_auth.BusCookieAuthenticator._get_cookies.__defaults__ = (self.wallclock,)
-        t_auth.BusCookieAuthenticator._create_cookie.__defaults__ = (self.wallclock,)
-        t_iface.DBusInterface.knownInterfaces = dict(KNOWN_AT_IMPORT)
+        if cookie is not None:
+            cookie.cookieContext = 'org_twisteddbus_ctxSIM'
+            try:
+                self.saved['gc_defaults'] = (cookie._get_cookies.__defaults__,
+                                             cookie._create_cookie.__defaults__)
+                if cookie._get_cookies.__defaults__:
+                    cookie._get_cookies.__defaults__ = (self.wallclock,)
+                if cookie._create_cookie.__defaults__:
+                    cookie._create_cookie.__defaults__ = (self.wallclock,)
+            except AttributeError:
+                self.saved['gc_defaults'] = None
+        if self.saved['known'] is not None:
+            t_iface.DBusInterface.knownInterfaces = dict(KNOWN_AT_IMPORT)
         gc.disable()
         txlog.addObserver(self._observe)
         self.installed = True
@@ -111,15 +123,21 @@ class Seams:
         self._restore_home()
         txlog.removeObserver(self._observe)
         t_client.reactor = self.saved['reactor']
-        t_msg.DBusMessage._nextSerial = self.saved['serial']
-        t_iface.DBusInterface.knownInterfaces = self.saved['known']
+        if self.saved['serial'] is not None:
+            t_msg.DBusMessage._nextSerial = self.saved['serial']
+        if self.saved['known'] is not None:
+            t_iface.DBusInterface.knownInterfaces = self.saved['known']
         t_bus.os = self.saved['bus_os']
         t_auth.os = self.saved['auth_os']
         t_auth.time = self.saved['auth_time']
-        t_proto._is_linux = self.saved['is_linux']
-        t_auth.BusCookieAuthenticator.cookieContext = self.saved['ctx']
-        (t_auth.BusCookieAuthenticator._get_cookies.__defaults__,
-         t_auth.BusCookieAuthenticator._create_cookie.__defaults__) = self.saved['gc_defaults']
+        if self.saved['is_linux'] is not None:
+            t_proto._is_linux = self.saved['is_linux']
+        cookie = getattr(t_auth, 'BusCookieAuthenticator', None)
+        if cookie is not None:
+            cookie.cookieContext = self.saved['ctx']
+            if self.saved['gc_defaults']:
+                (cookie._get_cookies.__defaults__,
+                 cookie._create_cookie.__defaults__) = self.saved['gc_defaults']
         if self.saved['gc']:
             gc.enable()
         self.installed = False
@@ -197,9 +215,11 @@ class Seams:
 
     # -- per-node process globals -------------------------------------------------------
     def swap_in(self, node):
-        t_msg.DBusMessage._nextSerial = node.serial
-        if node.known is not None:
+        if self.saved.get('serial') is not None:
+            t_msg.DBusMessage._nextSerial = node.serial
+        if node.known is not None and self.saved.get('known') is not None:
             t_iface.DBusInterface.knownInterfaces = node.known
 
     def swap_out(self, node):
-        node.serial = t_msg.DBusMessage._nextSerial
+        if self.saved.get('serial') is not None:
+            node.serial = t_msg.DBusMessage._nextSerial
